@@ -32,14 +32,17 @@ Proof. exact hsprintf1_spec. Qed.
    unread device input; it finishes when the queue is empty *)
 Theorem C08_send_once : forall (rmatch : text -> text -> option pmatch) (compress : list text -> text) now d a store e rest fmt fin d' a' store' evs,
   process_send compress now d a store e rest fmt = Ok (fin, d', a', store', evs) ->
-  (c_processing e = false ->
-     exists str, hsprintf1 fmt (send_arg compress e) = Some str /\ sd_to d' = sd_to d ++ str /\ sd_from d' = sd_from d
-       /\ In (EvSent str) evs /\ store' = store /\ fin = match sd_to d ++ str with [] => true | _ => false end)
+  (c_processing e = false -> (length (sd_to d) <= Z.to_nat MAX_DEV_BUF)%nat ->
+     exists str, hsprintf1 fmt (send_arg compress e) = Some str
+       /\ sd_to d' = lastn (Z.to_nat MAX_DEV_BUF) (sd_to d ++ str)           (* the 64 KiB queue overwrites its oldest bytes *)
+       /\ ((length (sd_to d ++ str) <= Z.to_nat MAX_DEV_BUF)%nat -> sd_to d' = sd_to d ++ str)
+       /\ sd_from d' = sd_from d
+       /\ In (EvSent str) evs /\ store' = store /\ fin = match sd_to d' with [] => true | _ => false end)
   /\ (c_processing e = true ->
      d' = d /\ evs = [] /\ store' = store /\ fin = match sd_to d with [] => true | _ => false end).
 Proof.
   intros rmatch compress now d a store e rest fmt fin d' a' store' evs H. split; intros Hp.
-  - exact (process_send_first rmatch compress now d a store e rest fmt fin d' a' store' evs Hp H).
+  - intros Hcap. exact (process_send_first rmatch compress now d a store e rest fmt fin d' a' store' evs Hp Hcap H).
   - exact (process_send_again rmatch compress now d a store e rest fmt fin d' a' store' evs Hp H).
 Qed.
 
